@@ -371,7 +371,8 @@ def translate(hist, obs, ext=False):
             t = "(PBind %s %s %s %s %s %s)" % (cstr(op["ns"]), cstr(op["name"]), cstr(o.get("uid", "")), cstr(o.get("node", op["node"])),
                                               coracle(first, choice), cfaults(fstore, fupd, fcloud, fbind))
             out = "(RIps %s)" % clist(cN(x) for x in o.get("ips") or []) if res == "ok" else "RErr"
-        elif k == "event":
+        elif k in ("event", "event_loop"):
+            # (event_loop: the same section, reached through the real event loop - a failed attempt queues the event again)
             if res == "skipped":
                 prev = d
                 continue
@@ -479,6 +480,10 @@ def translate(hist, obs, ext=False):
             meta.append((k, len(terms) - 1, t1))
             prev = d
             continue
+        elif k == "event_race":
+            # two release events handled by two goroutines: one after the other (the sections exclude each other) or overlapping -
+            # the monitors judge the outcome; no single model step describes the pair
+            return clist(terms), len(terms), "concurrent-events", meta
         elif k == "filter_race":
             # two Filter requests issued concurrently for pods sharing a pool: both hold the pool mutex from counting to allocating,
             # so the run is the first followed by the second - unless they overlapped, which no sequential model step describes
